@@ -312,8 +312,22 @@ def _input_classes():
                 build.pdb_text(build.build_peptide(seq)),
                 ["--userff=@u.dat", "--usernames=@u.names"],
                 {"u.dat": d2, "u.names": names})
+    # waters must not count as structure: the same truncated peptide with
+    # many waters, and a file of waters only
+    wat = []
+    for k in range(12):
+        wat.append(build.water((30.0 + 3.1 * (k % 4), 3.1 * (k // 4), 40.0),
+                               200 + k))
+    trunc = build.build_peptide(
+        ["SER", "LEU", "LYS", "PHE", "GLU", "ALA"],
+        omit={1: {"CD1", "CD2"}, 2: {"NZ"}, 3: {"CZ", "CE1"}, 4: {"OE1"}})
     return {
         **frac,
+        "too-many-missing+waters": (build.pdb_text(trunc + wat),
+                                    ["--ff=AMBER"], None),
+        "too-many-missing-no-waters": (build.pdb_text(trunc), ["--ff=AMBER"],
+                                       None),
+        "waters-only": (build.pdb_text(wat), ["--ff=AMBER"], None),
         "empty-file": ("", ["--ff=AMBER"], None),
         "header-only": ("HEADER    NOTHING\nREMARK   1\nEND\n", ["--ff=AMBER"],
                         None),
@@ -454,8 +468,14 @@ def run_success_case(case):
                                      xyz=np.array([30.0, 0.0, 0.0]),
                                      record="HETATM", res_idx=-1))
         label += f"+tail:{case['tail']}"
-    r = pipeline.run(text_override or build.pdb_text(atoms), opts,
-                     want_text=False)
+    if case["kind"] == "s3":
+        from .. import s3
+
+        with s3.torsion_drive(case["desc"], built[1]):
+            r = pipeline.run(text_override, opts, want_text=False)
+    else:
+        r = pipeline.run(text_override or build.pdb_text(atoms), opts,
+                         want_text=False)
     state = out_state(r.out_path, False)
     viol = []
     if not r.ok:
@@ -487,7 +507,9 @@ def enumerate_cases(tier, seed):
                  "unparseable-hetatm", "unparseable-resseq",
                  "only-unknown-residues", "missing-backbone",
                  "too-many-missing", "fractional-user-charges",
-                 "his-without-h-assign-only", "good-control"]:
+                 "his-without-h-assign-only", "good-control",
+                 "too-many-missing+waters", "too-many-missing-no-waters",
+                 "waters-only"]:
         cases.append({"mode": "input", "name": name})
     for label in FRACTION_BASES:
         for delta in FRACTION_DELTAS:
@@ -524,6 +546,18 @@ def enumerate_cases(tier, seed):
                             names=corpus.INPUT_NAMES):
         cases.append({"mode": "success", "kind": "s3", "ff": d["ff"],
                       "desc": d})
+    # crowded polar surroundings (every branch of the hydrogen-bond
+    # optimiser must end in a result): hydroxyl hosts next to donor /
+    # acceptor / hydroxyl partners, ideal-slot partner pairs, the torsion
+    # alphabet
+    for d in (s3.partner_cases("AMBER", ["LYS", "ASP", "SER", "THR", "TYR"],
+                               hosts=["SER", "THR", "TYR"],
+                               rots=range(0, 24, 2))
+              + s3.tetra_partner_cases("AMBER")
+              + s3.torsion_cases("AMBER")):
+        if s3.build_case(d) is not None:
+            cases.append({"mode": "success", "kind": "s3", "ff": d["ff"],
+                          "desc": d})
     for ff in corpus.FFS:
         for wn in (("HOH", "OW"), ("HOH", "OH2"), ("WAT", "O"),
                    ("WAT", "OW"), ("WAT", "OH2")):
